@@ -4,7 +4,7 @@
 #   /tmp/mutlab/verif  copy of the harness whose path dependencies point at /tmp/mutlab/repo
 # usage: mutlab.sh sync      (create/refresh both)
 set -e
-LAB=/tmp/mutlab
+LAB=${LAB:-/tmp/mutlab}
 mkdir -p $LAB
 if [ ! -d $LAB/repo/.git ] && [ ! -f $LAB/repo/.git ]; then git -C /repo worktree add -q --detach $LAB/repo HEAD; fi
 git -C $LAB/repo checkout -q -- . ; git -C $LAB/repo checkout -q --detach $(git -C /repo rev-parse HEAD)
